@@ -593,11 +593,19 @@ def _quant(I, a, isall):
             return d
         raise Unsupported('quantifier body needs a case split on %s' % str(c)[:300])
     st.branch = nb
+    npc = len(st.pc)
     try:
         body = I.truth_term(I.call(f, [SV(k, 'int')], {}))
     finally:
         st.branch = old_branch
         st.pop()
+        # facts assumed while the body was evaluated (ranges of abstract results, spec-function axioms) were
+        # added inside the pushed scope: re-assert them for every index of the range
+        from .state import has_quantifier
+        facts = [f for f in st.pc[npc:] if not has_quantifier(f)]   # (pairwise congruence instances are dropped)
+        del st.pc[npc:]
+        if facts:
+            st.assume(z3.ForAll([k], z3.Implies(rng, z3.And(*facts))))
     body = z3.BoolVal(body) if isinstance(body, bool) else body
     return SV(z3.ForAll([k], z3.Implies(rng, body)) if isall else z3.Exists([k], z3.And(rng, body)), 'bool')
 
